@@ -40,7 +40,7 @@ def strategy(tier):
 
 
 def hyp_examples(tier):
-    return 3000 if tier == "quick" else 150000
+    return 8000 if tier == "quick" else 150000
 
 
 def model_files(files):
